@@ -546,20 +546,24 @@ class Expander:
                         return m, fn[1]
         return None, None
 
-    def inlinable(self, f: Func, force: bool = False) -> bool:
+    def inlinable(self, f: Func, force: bool = False, effects: bool = False) -> bool:
         """A private helper without side effects on its arguments, its object or globals,
         no generator, not recursive, with a body of assignments / if / return only.
         ``force``: size, name and opacity do not matter (a rule asks for the value)."""
-        q = (f.qualname, force)
+        q = (f.qualname, force, effects)
         if q in self._inl_ok:
             return self._inl_ok[q]
-        ok = self._inlinable(f, force)
+        ok = self._inlinable(f, force, effects)
         self._inl_ok[q] = ok
         return ok
 
-    def _inlinable(self, f: Func, force: bool = False) -> bool:
+    def _inlinable(self, f: Func, force: bool = False, effects: bool = False) -> bool:
         if isinstance(f.node, ast.Lambda):
             return False
+        if effects:
+            # only the returned value is wanted: side effects and raises of the callee are the
+            # business of the rule that asks
+            return not any(isinstance(n, (ast.Yield, ast.YieldFrom, ast.Await)) for n in ast.walk(f.node))
         if not force and (not f.name.startswith("_") or f.name.startswith("__") or f.qualname in self.opaque):
             return False
         if f.is_property or getattr(f.node, "decorator_list", None) and any(not (isinstance(d, ast.Name) and d.id in ("staticmethod", "classmethod")) for d in f.node.decorator_list):
@@ -654,9 +658,9 @@ class Expander:
         self._memo[key] = t
         return t
 
-    def _inline_call(self, ct: Term, caller: Func, force: bool = False) -> Term | None:
+    def _inline_call(self, ct: Term, caller: Func, force: bool = False, effects: bool = False) -> Term | None:
         target, bound_self = self._inline_target(ct[1], caller)
-        if target is None or target is caller or not self.inlinable(target, force):
+        if target is None or target is caller or not self.inlinable(target, force, effects):
             return None
         if any(a[0] == "star" for a in ct[2]) or any(n == "**" for n, _ in ct[3]):
             return None
@@ -695,7 +699,7 @@ class Expander:
         return sub
 
     # --------------------------------------------------------------- inlining
-    def force_inline(self, t: Term, caller: Func, depth: int = 3) -> Term:
+    def force_inline(self, t: Term, caller: Func, depth: int = 3, effects: bool = False) -> Term:
         """Replace every call of a side-effect free package function in ``t`` (whatever
         its size or name) by its guarded return value: rules that need the value of a
         helper that was too large for automatic inlining ask for it explicitly."""
@@ -703,18 +707,18 @@ class Expander:
             return t
         if t[0] in ("const", "param", "global", "builtin", "func", "rec", "unknown", "unbound", "deep", "root", "exc"):
             return t
-        t2 = tuple(self._force_inline_any(x, caller, depth) for x in t)
+        t2 = tuple(self._force_inline_any(x, caller, depth, effects) for x in t)
         if t2[0] == "call":
-            it = self._inline_call(t2, caller, force=True)
+            it = self._inline_call(t2, caller, force=True, effects=effects)
             if it is not None:
-                return self.force_inline(it, caller, depth - 1)
+                return self.force_inline(it, caller, depth - 1, effects)
         return t2
 
-    def _force_inline_any(self, x, caller: Func, depth: int):
+    def _force_inline_any(self, x, caller: Func, depth: int, effects: bool = False):
         if isinstance(x, tuple):
             if x and isinstance(x[0], str) and x[0] in _TAGS:
-                return self.force_inline(x, caller, depth)
-            return tuple(self._force_inline_any(y, caller, depth) for y in x)
+                return self.force_inline(x, caller, depth, effects)
+            return tuple(self._force_inline_any(y, caller, depth, effects) for y in x)
         return x
 
     # ------------------------------------------------------ function values
